@@ -208,9 +208,9 @@ def step4(k1: int, k2: int, k3: int, k4: int, i1: bool, i2: bool, i3: bool, i4: 
   """
   import os
   sl = os.environ.get('VERIF_SLICE')
-  kinds = [conc(k1, 0, 5), conc(k2, 0, 5), conc(k3, 0, 5), conc(k4, 0, 5)]
-  mode = conc(mode, 0, 3)
-  if sl is not None and (kinds[0] * 4 + mode) % 8 != int(sl):
+  k1, mode = conc(k1, 0, 5), conc(mode, 0, 3)
+  if sl is not None and (k1 * 4 + mode) % 12 != int(sl):
     return True
+  kinds = [k1, conc(k2, 0, 5), conc(k3, 0, 5), conc(k4, 0, 5)]
   inc = [cbool(i1), cbool(i2), cbool(i3), cbool(i4)]
   return _run(kinds, inc, mode, 1, (k1, k2, k3, k4, i1, i2, i3, i4, mode))
